@@ -378,7 +378,40 @@ def histories(ctx, n, maxlen):
                 break
 
 
+def computed_index(ctx, n):
+    """timestamps handed over as a TsIndex COMPUTED from another object's index (index - t0, index + d: what perievent-style code does), on
+    decimal times: the object is well formed in RAW float terms - no sample outside its default support, timestamps stored at 1 ns"""
+    rng = ctx.rng
+    for k in range(n):
+        m = rng.randint(2, 6)
+        base = sorted(set(round(rng.uniform(0, 100), rng.choice([1, 2, 3])) for _ in range(m)))
+        delta = rng.choice([0.1, 0.3, 0.7, 1.1, 4e-10, 63.7, 0.123])
+        x = nap.Ts(np.array(base))
+        form = k % 3
+        idx = [x.index - delta, x.index + delta, (x.index - delta) + 0.0][form]
+        cls = (k // 3) % 3
+        inp = dict(level="computed-index", base=base, delta=delta, form=["index - d", "index + d", "(index - d) + 0.0"][form], cls=["Ts", "Tsd", "TsdFrame"][cls])
+        ctx.case(("ci", tuple(base), delta, form, cls), inp if k % 41 == 0 else None)
+        ctx.count("computed_index:" + inp["form"])
+        try:
+            o = [lambda: nap.Ts(t=idx), lambda: nap.Tsd(t=idx, d=np.arange(len(base), dtype=float)),
+                 lambda: nap.TsdFrame(t=idx, d=np.zeros((len(base), 2)))][cls]()
+        except Exception as e:
+            ctx.fail("oracle", "constructor on a computed TsIndex raised %r" % (e,), inp); continue
+        t = np.asarray(o.t)
+        if len(t) != len(base):
+            ctx.fail("oracle", "constructor on a computed TsIndex lost samples", inp, impl=len(t)); continue
+        if len(base) >= 2:
+            sup = o.time_support
+            if not (len(sup) and float(sup.start[0]) <= t[0] and t[-1] <= float(sup.end[-1])):
+                ctx.fail("oracle", "a sample lies outside the object's own default support (raw float comparison)", inp,
+                         impl=dict(first=repr(t[0]), last=repr(t[-1]), support=np.asarray(sup.values).tolist()))
+        if not np.array_equal(t, np.round(t, 9)):
+            ctx.fail("oracle", "stored timestamps are not at the 1 ns resolution of every other time", inp, impl=[repr(v) for v in t[:3]])
+
+
 def run(ctx):
+    computed_index(ctx, 240 if ctx.quick else 3000)
     constructors(ctx, 1500 if ctx.quick else 12000)
     histories(ctx, 900 if ctx.quick else 6000, 12 if ctx.quick else 40)
 
